@@ -355,7 +355,18 @@ REIDX_QUICK = ("trafo3w", "trafo", "line", "load", "group", "switch")
 REIDX_QUICK_SKIP = {("load", "2to9")}
 
 
+CORE = [["fuse_buses", 0, [1]], ["fuse_buses", 0, [2]], ["fuse_buses", 4, [5]], ["drop_buses", [4]], ["drop_lines", [1]],
+        ["reindex_elements", "trafo3w", "to7"], ["reindex_elements", "line", "swap01"], ["reindex_elements", "load", "swap23"],
+        ["reindex_buses", [[3, 4], [4, 3], [0, 1], [1, 0]]], ["create_continuous_elements_index", 1], ["merge_nets"],
+        ["select_subnet", [0, 1, 2, 3], {}], ["replace_line_by_impedance", [2]], ["replace_impedance_by_line", [0]],
+        ["create_switch", 1, 0, "l"], ["drop_inactive_elements"]]
+_CORE = set(json.dumps(o) for o in CORE)
+
+
 def ops(s, tier="quick"):
+    """tier: "quick" (33 bound ops in the initial state), "thorough" (55), "core" (16, for the deepest bound)"""
+    if tier == "core":
+        return [o for o in ops(s, "thorough") if json.dumps(o) in _CORE]
     if s["dead"]:
         return []
     net = s["net"]
